@@ -52,7 +52,8 @@ class Ctx(object):
         self._vkeys[key] = n + 1
         self.count('violations_raw')
         if n < 3:   # keep a few witnesses per mechanism
-            self.violations.append({'key': key, 'what': what, 'detail': detail, 'case': self.case})
+            self.violations.append({'key': key, 'what': what, 'detail': detail, 'case': self.case,
+                                    'shard': self.shard, 'nshards': self.nshards})
             if self.on_new_witness is not None:
                 self.on_new_witness(n == 0)
 
@@ -111,7 +112,28 @@ def main(argv):
             mod.setup(ctx)
         mod.run_case(ctx, rep['case'])
         hit = [v for v in ctx.violations if v['key'] == rep['key']]
+        if not hit and rep.get('nshards'):
+            # the library keeps process-wide state (it rewrites caller-owned attribute objects when encoding under KMIP 2.0,
+            # a listed C01 finding), so a case can depend on the cases its worker ran before it: run that worker's cases
+            # again, in order, up to the recorded one
+            print('replay: not reproduced by the case alone; re-running the preceding cases of its worker', end='')
+            ctx = Ctx(pid, rep.get('tier', tier), rep.get('seed', seed), rep.get('shard', 0), rep['nshards'])
+            if hasattr(mod, 'setup'):
+                mod.setup(ctx)
+            allc = mod.cases(rep.get('tier', tier), rep.get('seed', seed))
+            mine = [c for j, c in enumerate(allc) if j % rep['nshards'] == rep.get('shard', 0)]
+            upto = mine.index(rep['case']) if rep['case'] in mine else len(mine) - 1
+            print(' (%d)' % upto)
+            for c in mine[:upto + 1]:
+                ctx.case = c
+                try:
+                    mod.run_case(ctx, c)
+                except Exception:
+                    pass
+            hit = [v for v in ctx.violations if v['key'] == rep['key']]
         for v in ctx.violations:
+            if v['key'] != rep['key'] and len(ctx.violations) > 8:
+                continue
             print('replayed violation key=%s :: %s' % (v['key'], v['what']))
             if v.get('detail') is not None:
                 print('  detail: %s' % json.dumps(v['detail'], default=str)[:3000])
